@@ -351,6 +351,10 @@ fn run(ctx: &mut Ctx) {
                 (2, "a") => "'a".to_string(),
                 (2, "b") => "a".to_string(),
                 (2, "X") => "'X'".to_string(),
+                // a combining mark / a connector / a joiner inside a name, next to the bare name
+                (3, "a") => "cafe\u{301}".to_string(),
+                (3, "b") => "cafe".to_string(),
+                (3, "X") => "X\u{203f}1\u{200d}".to_string(),
                 (_, o) => o.to_string(),
             };
             match a {
@@ -375,7 +379,7 @@ fn run(ctx: &mut Ctx) {
                 }
             });
             for a in todo {
-                for set in 0..3 {
+                for set in 0..4 {
                     let ra = ren(&a, set);
                     let text = refl::pp(&ra, refl::MINIMAL);
                     if refl::parse(&text).as_ref() != Ok(&ra) {
